@@ -225,9 +225,24 @@ def run_system(text, ops_seed, sched_kwargs, n_generators=1, faults=None, props=
                     viols.append({"property": "C13", "invariant": "system_mass_unavailable", "msg": f"System.system_mass raised {exc!r}", "features": []})
             # tasks ---------------------------------------------------------------
             gens = []
+            # with several generators, every other one iterates a second System object parsed from the same text: the two objects
+            # (and whatever the library shares between them) are used in an interleaved way
+            systems = [system]
+            if n_generators >= 2 and rnd.random() < 0.5:
+                try:
+                    system_b = g.System(text, system_molweight) if system_molweight else g.System(text)
+                    world.register_tokens(system_b.residues, list(range(len(system_b.residues))))
+                    systems.append(system_b)
+                    stats["second_system_object"] = 1
+                except SimAbort:
+                    raise
+                except Exception as exc:
+                    viols.append({"property": "C13", "invariant": "workload_rejected_by_parser",
+                                  "msg": f"parsing System({text!r}) a second time raised {exc!r}", "features": []})
 
             def new_gen():
-                gens.append({"gen": system.generator, "mass": 0.0, "yields": 0, "done": False, "dead": None, "members": []})
+                src = systems[len(gens) % len(systems)]
+                gens.append({"gen": src.generator, "mass": 0.0, "yields": 0, "done": False, "dead": None, "members": []})
                 stats["generators"] += 1
                 world.event({"k": "op", "op": "new_generator", "g": len(gens) - 1})
 
